@@ -71,6 +71,8 @@ struct Case {
     ident: Ident,
     /// https URI but no TLS configuration at all
     no_tls_config: bool,
+    /// ServerTlsConfig::ignore_client_order (must not influence authentication)
+    ignore_order: bool,
     chop: usize,
 }
 
@@ -165,7 +167,7 @@ fn body(c: &Case, ch: &Chooser) -> Outcome {
         // ---- server side
         match c.alpn {
             Alpn::H2 => {
-                let mut tls = ServerTlsConfig::new().identity(Identity::from_pem(SERVER_CERT, SERVER_KEY));
+                let mut tls = ServerTlsConfig::new().identity(Identity::from_pem(SERVER_CERT, SERVER_KEY)).ignore_client_order(c.ignore_order);
                 match c.auth {
                     ClientAuth::NotRequested => {}
                     ClientAuth::Required => tls = tls.client_ca_root(Certificate::from_pem(CA_A)),
@@ -352,7 +354,10 @@ fn cases(tier: Tier) -> Vec<Case> {
                             n += 1;
                             let chops: Vec<usize> = if tier == Tier::Thorough { vec![0, 2, 3] } else { vec![[0, 2, 3][n % 3]] };
                             for chop in chops {
-                                out.push(Case { roots, domain, alpn, assume_http2, auth, ident, no_tls_config: false, chop });
+                                out.push(Case { roots, domain, alpn, assume_http2, auth, ident, no_tls_config: false, ignore_order: false, chop });
+                                if alpn == Alpn::H2 && roots == Roots::RightCa && domain != Domain::NonMatching {
+                                    out.push(Case { roots, domain, alpn, assume_http2, auth, ident, no_tls_config: false, ignore_order: true, chop });
+                                }
                             }
                         }
                     }
@@ -361,7 +366,7 @@ fn cases(tier: Tier) -> Vec<Case> {
         }
     }
     for alpn in [Alpn::H2, Alpn::NoneOffered] {
-        out.push(Case { roots: Roots::None, domain: Domain::FromUri, alpn, assume_http2: false, auth: ClientAuth::NotRequested, ident: Ident::None, no_tls_config: true, chop: 0 });
+        out.push(Case { roots: Roots::None, domain: Domain::FromUri, alpn, assume_http2: false, auth: ClientAuth::NotRequested, ident: Ident::None, no_tls_config: true, ignore_order: false, chop: 0 });
     }
     out
 }
@@ -370,7 +375,7 @@ pub fn property(tier: Tier) -> Property {
     let sec = Section::new(
         "tls-matrix",
         Config { hang_secs: 60, ..Default::default() },
-        "cases: the full 486-cell matrix client roots {issuing CA, other CA, none} x domain {URI host outside the SAN + domain_name naming the SAN, URI host in the SAN + domain_name naming something else, no domain_name + URI host in the SAN} x server ALPN {h2 = tonic-terminated TLS, none, http/1.1 = harness rustls terminator in front of a plain tonic server} x assume_http2 x server client-auth {none, required, optional} x client identity {none, from the client CA, from another CA} (pipe fragmentation pattern rotating; thorough: 3 patterns each), plus https URI without any TLS configuration; real handshakes (ring) over in-memory pipes in virtual time through Endpoint::tls_config + connect_with_connector and Server::tls_config. Oracle: boolean reference of the cell (must-pass / must-fail / open for http/1.1+assume_http2 and optional-auth+foreign certificate); on failure no handler invocation, client-side verification failures surface at connect, the first bytes the client ever sends are a TLS handshake record, handlers see the verified client chain (None when optional and absent). All cells count as non-trivial.",
+        "cases: the full 486-cell matrix client roots {issuing CA, other CA, none} x domain {URI host outside the SAN + domain_name naming the SAN, URI host in the SAN + domain_name naming something else, no domain_name + URI host in the SAN} x server ALPN {h2 = tonic-terminated TLS, none, http/1.1 = harness rustls terminator in front of a plain tonic server} x assume_http2 x server client-auth {none, required, optional} x client identity {none, from the client CA, from another CA} (pipe fragmentation pattern rotating; thorough: 3 patterns each), plus the tonic-terminated, otherwise passing cells repeated with ServerTlsConfig::ignore_client_order(true) (which must not influence authentication), plus https URI without any TLS configuration; real handshakes (ring) over in-memory pipes in virtual time through Endpoint::tls_config + connect_with_connector and Server::tls_config. Oracle: boolean reference of the cell (must-pass / must-fail / open for http/1.1+assume_http2 and optional-auth+foreign certificate); on failure no handler invocation, client-side verification failures surface at connect, the first bytes the client ever sends are a TLS handshake record, handlers see the verified client chain (None when optional and absent). All cells count as non-trivial.",
         cases(tier),
         |c: &Case| format!("{c:?}"),
         body,
